@@ -64,7 +64,7 @@ class RegistryModel:
         ind = self.ind
         real_get = ind.get_indices
         real_generic = ind.get_generic_indices
-        real_gen = ind._gen_generic_idx
+        real_gen = getattr(ind, "_gen_generic_idx", None)
         model = self
 
         def get_indices(indices, spins=None):
@@ -106,15 +106,22 @@ class RegistryModel:
             finally:
                 model.depth -= 1
 
-        def _gen_generic_idx(space, spin=""):
+        def _gen_generic_idx(*a, **k):
+            # private helper: wrapped only to count calls, whatever its signature is
             model.stats["gen_generic"] += 1
-            if ind._counter[space][spin] > ind._initial_counter:
-                model.stats["pool_rollover"] += 1
-            return real_gen(space, spin)
+            try:
+                space = a[0] if a else k.get("space")
+                spin = a[1] if len(a) > 1 else k.get("spin", "")
+                if ind._counter[space][spin] > ind._initial_counter:
+                    model.stats["pool_rollover"] += 1
+            except Exception:  # noqa: BLE001 - white-box probe only
+                pass
+            return real_gen(*a, **k)
 
         ind.get_indices = get_indices
         ind.get_generic_indices = get_generic_indices
-        ind._gen_generic_idx = _gen_generic_idx
+        if real_gen is not None:
+            ind._gen_generic_idx = _gen_generic_idx
 
     # ------------------------------------------------------------------ checks
     def _viol(self, rule, detail):
@@ -216,14 +223,25 @@ class RegistryModel:
             self.stats["rejected"] += 1
         elif not isinstance(exc, Exception) or isinstance(exc, MemoryError):
             self.stats["aborted_inside"] += 1
-        for sp in BASE:
-            for s in SPINS:
-                for n, o in self.ind._symbols[sp][s].items():
-                    self.known[(sp, s)].setdefault(n, o)
+        try:
+            for sp in BASE:
+                for s in SPINS:
+                    for n, o in self.ind._symbols[sp][s].items():
+                        self.known[(sp, s)].setdefault(n, o)
+        except Exception:  # noqa: BLE001 - private layout changed: the model stays black-box
+            self.stats["whitebox_unavailable"] = self.stats.get("whitebox_unavailable", 0) + 1
 
     # ------------------------------------------------------------------ R4 (latent)
     def pool_hygiene(self):
         """white-box: names that are both pooled and registered, or pooled twice"""
+        bad = []
+        try:
+            return self._pool_hygiene()
+        except Exception:  # noqa: BLE001 - private layout changed
+            self.stats["whitebox_unavailable"] = self.stats.get("whitebox_unavailable", 0) + 1
+            return []
+
+    def _pool_hygiene(self):
         bad = []
         for sp in BASE:
             for s in SPINS:
@@ -240,10 +258,15 @@ class RegistryModel:
 
     def state_digest_tuple(self):
         out = []
-        for sp in BASE:
-            for s in SPINS:
-                out.append((self.ind._counter[sp][s], len(self.ind._generic_indices[sp][s]),
-                            len(self.ind._symbols[sp][s])))
+        try:
+            for sp in BASE:
+                for s in SPINS:
+                    out.append((self.ind._counter[sp][s],
+                                len(self.ind._generic_indices[sp][s]),
+                                len(self.ind._symbols[sp][s])))
+        except Exception:  # noqa: BLE001 - private layout changed: use the model's own view
+            out = [(len(self.known[(sp, s)]), len(self.generic_out[(sp, s)]))
+                   for sp in BASE for s in SPINS]
         return tuple(out)
 
     def was_generic(self, key, name) -> bool:
